@@ -1,7 +1,7 @@
 #!/bin/bash
 # keep_seed.sh <seed-dir> <prop> <detected-by|MISSED> : copies a confirmed seeded change into /verif/seeded/<id>/
 D="$1"; P="$2"; DET="$3"; ID=$(basename "$D")
-mkdir -p /verif/seeded/$ID && cp "$D"/patch.diff "$D"/*.go /verif/seeded/$ID/ 2>/dev/null
+mkdir -p /verif/seeded/$ID && cp "$D"/patch.diff "$D"/*.go "$D"/*.sh "$D"/*.c /verif/seeded/$ID/ 2>/dev/null
 python3 - "$D/meta.json" "/verif/seeded/$ID/meta.json" "$P" "$DET" <<'PY'
 import json,sys
 m=json.load(open(sys.argv[1])); m['property']=sys.argv[3]
